@@ -457,6 +457,9 @@ impl Model {
                     }
                     Out::Err => {
                         self.destroyed.push(obj);
+                        if self.rivals_runnable(g) {
+                            return;
+                        }
                         continue;
                     }
                     Out::Gate(ok) => {
@@ -466,6 +469,9 @@ impl Model {
                             // polled once, pending, deadline already over
                             self.gates[gate].dead = true;
                             self.destroyed.push(obj);
+                            if self.rivals_runnable(g) {
+                                return;
+                            }
                             continue;
                         }
                         self.gets[g].phase = Phase::Recycling {
@@ -481,6 +487,9 @@ impl Model {
                         if t.recycle.ms() == Some(0) {
                             self.gates[gate].dead = true;
                             self.destroyed.push(obj);
+                            if self.rivals_runnable(g) {
+                                return;
+                            }
                             continue;
                         }
                         self.gets[g].phase = Phase::Recycling {
@@ -547,6 +556,32 @@ impl Model {
         }
     }
 
+    /// After a rejected idle object the caller goes on to the next one. An implementation may
+    /// yield to the executor in between; if another caller is runnable at that moment, which
+    /// of them pops the next idle object (or creates) first is up to the executor.
+    fn rivals_runnable(&mut self, g: usize) -> bool {
+        let now = self.now;
+        let rival = (0..self.gets.len()).any(|o| {
+            o != g
+                && (matches!(self.gets[o].phase, Phase::Granted)
+                    // a deadline that is due frees a slot (or moves on) in this very round
+                    || matches!(
+                        self.gets[o].phase,
+                        Phase::Waiting { deadline: Some(d) } | Phase::Creating { deadline: Some(d), .. } | Phase::Recycling { deadline: Some(d), .. }
+                        if d <= now
+                    )
+                    || (self.gate_opened(&self.gets[o].phase)
+                        && match self.gets[o].phase {
+                            Phase::Creating { gate, .. } | Phase::Recycling { gate, .. } => !self.gates[gate].dead,
+                            _ => false,
+                        }))
+        });
+        if rival {
+            self.unspecified = Some("a rejected object while another caller is runnable: the order of their next steps is the executor's".into());
+        }
+        rival
+    }
+
     fn closed_gates(&self) -> Vec<usize> {
         self.gates
             .iter()
@@ -579,7 +614,9 @@ impl Model {
                     self.gets[g].phase = Phase::Done(Res::Ok(obj));
                 } else {
                     self.destroyed.push(obj);
-                    self.proceed(g);
+                    if !self.rivals_runnable(g) {
+                        self.proceed(g);
+                    }
                 }
             }
             _ => {}
@@ -649,7 +686,9 @@ impl Model {
             Phase::Recycling { gate, obj, .. } => {
                 self.gates[gate].dead = true;
                 self.destroyed.push(obj);
-                self.proceed(g);
+                if !self.rivals_runnable(g) {
+                    self.proceed(g);
+                }
             }
             Phase::Done(_) | Phase::Granted => {}
         }
